@@ -107,6 +107,7 @@ type poolPlan struct {
 	gate   bool
 	ctxret bool
 	ev     string // the VALUE of the provider/aggregator error: plain|wdeadline|wcancel|fmtcancel|nettimeout|joined
+	slow   int    // milliseconds the provider / aggregator take to wind down once their context is done
 }
 
 func parsePool(s string) poolPlan {
@@ -115,6 +116,9 @@ func parsePool(s string) poolPlan {
 	pl := poolPlan{n: at(0), shared: f[1] == "1", ammo: at(2), tokens: at(3), fault: f[4], k: at(5), gate: f[6] == "1", ctxret: f[7] == "1", ev: "plain"}
 	if len(f) > 8 {
 		pl.ev = f[8]
+	}
+	if len(f) > 9 && strings.HasPrefix(f[9], "slow") {
+		pl.slow, _ = strconv.Atoi(f[9][4:])
 	}
 	return pl
 }
@@ -127,6 +131,27 @@ type runState struct {
 	cancelAt int           // pool 0's k-th Shoot triggers the cancel (0: never)
 	created  atomic.Int64
 	closed   atomic.Int64
+	// activity of what the engine starts: Provider.Run / Aggregator.Run calls and Gun.Shoot calls that were
+	// entered / have returned (the harness asks "what was still executing when Engine.Wait returned?")
+	compRuns atomic.Int64 // Provider.Run + Aggregator.Run calls entered
+	begun    atomic.Int64 // compRuns + Shoot calls entered
+	ended    atomic.Int64 // ... that have returned
+}
+
+// enter marks that a call of a component started by the engine begins; the returned func marks its return.
+func (rs *runState) enter(comp bool) func() {
+	if comp {
+		rs.compRuns.Add(1)
+	}
+	rs.begun.Add(1)
+	return func() { rs.ended.Add(1) }
+}
+
+// windDown is the time a provider / aggregator takes to stop after it was told to (its context is done).
+func windDown(ctx context.Context, pl poolPlan) {
+	if pl.slow > 0 && ctx.Err() != nil {
+		time.Sleep(time.Duration(pl.slow) * time.Millisecond)
+	}
 }
 
 // ---- provider ----
@@ -140,7 +165,14 @@ type mockProvider struct {
 	trigger chan struct{}
 }
 
-func (p *mockProvider) Run(ctx context.Context, _ core.ProviderDeps) error {
+func (p *mockProvider) Run(ctx context.Context, deps core.ProviderDeps) error {
+	defer p.pm.rs.enter(true)()
+	err := p.run(ctx, deps)
+	windDown(ctx, p.plan)
+	return err
+}
+
+func (p *mockProvider) run(ctx context.Context, _ core.ProviderDeps) error {
 	isFault := p.plan.fault == "prov"
 	if p.plan.fault == "provnil" {
 		return nil // finished reading its source; Acquire goes on serving the buffered ammo
@@ -223,6 +255,7 @@ type reportingProvider struct {
 }
 
 func (r reportingProvider) Run(ctx context.Context, deps core.ProviderDeps) error {
+	defer r.pm.rs.enter(true)()
 	err := r.Provider.Run(ctx, deps)
 	if err != nil && !(ctx.Err() != nil && pkgerrors.Cause(err) == ctx.Err()) {
 		r.pm.fault("prov")
@@ -293,7 +326,14 @@ type mockAggregator struct {
 	trigger chan struct{}
 }
 
-func (a *mockAggregator) Run(ctx context.Context, _ core.AggregatorDeps) error {
+func (a *mockAggregator) Run(ctx context.Context, deps core.AggregatorDeps) error {
+	defer a.pm.rs.enter(true)()
+	err := a.run(ctx, deps)
+	windDown(ctx, a.plan)
+	return err
+}
+
+func (a *mockAggregator) run(ctx context.Context, _ core.AggregatorDeps) error {
 	isFault := a.plan.fault == "aggr"
 	if a.plan.fault == "aggrnil" {
 		return nil
@@ -373,6 +413,7 @@ func (g *mockGun) Bind(aggr core.Aggregator, _ core.GunDeps) error {
 func (g *mockGun) Shoot(core.Ammo) {
 	c := int(g.pm.shoots.Add(1))
 	rs := g.pm.rs
+	defer rs.enter(false)()
 	if g.pm.idx == 0 && rs.cancelAt > 0 && c == rs.cancelAt {
 		rs.log.Info("verif-cancel-begin")
 		rs.cancel()
@@ -683,9 +724,11 @@ func runCase(line string) string {
 	waited := make(chan struct{})
 	go func() { eng.Wait(); close(waited) }()
 	w := false
+	var endedAtWait int64
 	select {
 	case <-waited:
 		w = true
+		endedAtWait = rs.ended.Load()
 	case <-time.After(2 * time.Second):
 	}
 	cancel()
@@ -708,15 +751,28 @@ func runCase(line string) string {
 		time.Sleep(200 * time.Microsecond)
 	}
 	toks := history(logs.All(), len(plans), plans)
-	return fmt.Sprintf("R=%s W=%s G=%s C=%d L=%d T=%s", res, vh.B(w), vh.B(settled), rs.created.Load(), rs.closed.Load(), strings.Join(toks, ","))
+	// K: calls of Provider.Run / Aggregator.Run / Gun.Shoot made by this run (all of them, counted once the
+	// goroutines have settled) that had not returned yet at the moment Engine.Wait returned
+	k := "-"
+	if w {
+		k = strconv.FormatInt(rs.begun.Load()-endedAtWait, 10)
+	}
+	return fmt.Sprintf("R=%s W=%s G=%s K=%s N=%d C=%d L=%d T=%s", res, vh.B(w), vh.B(settled), k, rs.compRuns.Load(), rs.created.Load(), rs.closed.Load(), strings.Join(toks, ","))
 }
 
 // ---- generator ----
 
 func poolStr(p poolPlan) string {
 	s := fmt.Sprintf("%d,%s,%d,%d,%s,%d,%s,%s", p.n, vh.B(p.shared), p.ammo, p.tokens, p.fault, p.k, vh.B(p.gate), vh.B(p.ctxret))
-	if p.ev != "" && p.ev != "plain" {
-		s += "," + p.ev
+	if (p.ev != "" && p.ev != "plain") || p.slow > 0 {
+		ev := p.ev
+		if ev == "" {
+			ev = "plain"
+		}
+		s += "," + ev
+	}
+	if p.slow > 0 {
+		s += fmt.Sprintf(",slow%d", p.slow)
 	}
 	return s
 }
@@ -787,6 +843,31 @@ func gen(r *vh.Rand, tier string) []string {
 						out = append(out, line)
 					}
 				}
+			}
+		}
+		// components that take a while to wind down once told to stop: on every early-return path of the pool
+		// (failure before / at / after the start of the components, cancel) Engine.Wait has to outlast them
+		for _, ft := range []string{"gun", "warm", "sched", "sched", "bind", "panic", "prov", "aggr", "none"} {
+			for _, np := range []int{1, 2} {
+				p := poolPlan{n: r.Range(1, 3), shared: true, ammo: 8, tokens: r.Range(2, 6), fault: ft, ctxret: r.Bool(), slow: r.Range(15, 40)}
+				cp := "none"
+				switch ft {
+				case "bind", "panic":
+					p.k = r.Range(1, 2)
+					p.shared = r.Bool()
+				case "prov", "aggr":
+					p.k = r.Range(0, 2)
+				case "none":
+					cp = r.Pick([]string{"pre", "shoot1", "shoot2", "timed200"})
+					p.ammo, p.tokens = -1, -1
+				}
+				line := "run " + cp + " " + poolStr(p)
+				if np == 2 {
+					h := healthy
+					h.slow = r.Range(15, 40)
+					line += " " + poolStr(h)
+				}
+				out = append(out, line)
 			}
 		}
 		// healthy runs of various shapes, ends by ammo or by schedule
